@@ -4,42 +4,101 @@ from unit import Unit
 MAXN = 1000000
 
 
+GLOBALS = """
+TBuffer *g_obj; TValue *g_tv; int g_s_gi;
+unsigned long g_acq, g_n_lin, g_pushed_meanwhile; int g_role; _Bool g_new_lin; int g_q_lin;
+"""
+STUBS = """
+/* Thread-modular interference point (rely of the calling thread).  A public operation that takes the mutex more than once is
+ * not one atomic step: between two of its critical sections other threads run.  verif_on_acquire is called by the ghost lock on
+ * every acquisition; from the second acquisition of one operation on it applies what the OTHER threads of the documented usage
+ * may have done meanwhile.  For the consumer (g_role == 0) those are the producers: any number of elements appended (the block
+ * may have been reallocated; the old elements keep their order -- tracked at the ghost index verif_gi).  For a producer
+ * (g_role == 1) they are other producers and the consumer: any well-formed buffer.  g_n_lin is the number of elements present at
+ * the operation's last acquisition -- the state its effect is specified against (its linearisation point). */
+void verif_on_acquire(std_mutex *m)
+{
+  if (g_tv != 0 && m == &g_tv->mutex) {
+    /* TransactionalValue, one producer + one consumer: between two critical sections of update() the producer may have assigned
+     * (any value, flag raised); between two of an assignment the consumer may have run update() (flag lowered). */
+    if (g_acq > 0) {
+      if (g_role == 0) { if (nondet__Bool()) { g_tv->queuedValue = nondet_int(); g_tv->newValue = 1; } }
+      else { if (g_tv->newValue && nondet__Bool()) g_tv->newValue = 0; }
+    }
+    g_acq++; g_new_lin = g_tv->newValue; g_q_lin = g_tv->queuedValue;
+    return;
+  }
+  if (g_obj == 0 || m != &g_obj->bufferMutex) return;
+  if (g_acq > 0) {
+    unsigned long n0 = g_obj->buffer.n;
+    unsigned long n2 = nondet_unsigned_long(); __CPROVER_assume(n2 <= %(M)d && (g_role == 1 || n2 >= n0));
+    int *nb = n2 ? (int *)verif_malloc(n2 * sizeof(int)) : 0;
+    if (g_role == 0 && verif_gi < n0) nb[verif_gi] = g_obj->buffer.b[verif_gi];
+    g_obj->buffer.b = nb; g_obj->buffer.n = n2; g_obj->buffer.cap = n2;
+    if (g_role == 0) g_pushed_meanwhile += n2 - n0;
+  }
+  g_acq++; g_n_lin = g_obj->buffer.n;
+}
+""" % dict(M=MAXN)
+
+
 def units():
-    U = Unit("c12_transactional", "units/c12_transactional.cpp",
-             opts=dict(guarded_by={("TransactionalBuffer", "buffer"): "bufferMutex", ("TransactionalValue", "queuedValue"): "mutex", ("TransactionalValue", "newValue"): "mutex"}))
+    U = Unit("c12_transactional", "units/c12_transactional.cpp", stubs=GLOBALS + STUBS,
+             opts=dict(tracked_vec=True, on_acquire=True, guarded_by={("TransactionalBuffer", "buffer"): "bufferMutex", ("TransactionalValue", "queuedValue"): "mutex", ("TransactionalValue", "newValue"): "mutex"}))
+    U.stub("verif_on_acquire", "ASSUMED rely condition of the documented usage (one consumer, any number of producers): what other threads may do between two critical sections of one operation; never exercised by the current code, whose operations are one critical section each")
     buf = """
-  unsigned long in_n = nondet_unsigned_long(); __CPROVER_assume(in_n <= %d);
-  o_@0.buffer.n = in_n; o_@0.buffer.cap = in_n; o_@0.buffer.b = in_n ? (int *)verif_malloc(in_n * sizeof(int)) : 0; o_@0.bufferMutex.g_held = 0;
+  unsigned long in_n = nondet_unsigned_long(), in_cap = nondet_unsigned_long(); __CPROVER_assume(in_n <= in_cap && in_cap <= %d);
+  o_@0.buffer.n = in_n; o_@0.buffer.cap = in_cap; o_@0.buffer.b = in_cap ? (int *)verif_malloc(in_cap * sizeof(int)) : 0; o_@0.bufferMutex.g_held = 0;
+  verif_gi = nondet_unsigned_long(); verif_gj = verif_hi = verif_hj = verif_gi; if (verif_gi < in_n) g_s_gi = o_@0.buffer.b[verif_gi];
+  g_obj = &o_@0; g_tv = 0; g_acq = nondet_unsigned_long(); g_n_lin = 0; g_pushed_meanwhile = nondet_unsigned_long(); g_role = ROLE;
+  __CPROVER_assume(g_acq < 4294967296ul && g_pushed_meanwhile < 4294967296ul);
 """ % MAXN
     FREE = "$0->bufferMutex.g_held == 0"
-    OWN = "(($0->buffer.n == 0 && $0->buffer.b == 0) || ($0->buffer.n > 0 && $0->buffer.n <= %d && __CPROVER_r_ok($0->buffer.b, $0->buffer.n * sizeof(int))))" % MAXN
+    OWN = ("($0->buffer.n <= $0->buffer.cap && $0->buffer.cap <= %d && (($0->buffer.cap == 0 && $0->buffer.b == 0) || ($0->buffer.cap > 0 && __CPROVER_rw_ok($0->buffer.b, $0->buffer.cap * sizeof(int)) && __CPROVER_POINTER_OFFSET($0->buffer.b) == 0)))" % MAXN)
+    GH = ["g_obj == $0 && g_tv == 0 && g_acq < 4294967296ul && g_pushed_meanwhile < 4294967296ul", "verif_gj == verif_gi && verif_hi == verif_gi && verif_hj == verif_gi", "IMP(verif_gi < $0->buffer.n, $0->buffer.b[verif_gi] == g_s_gi)"]
+    GA = ["g_acq", "g_n_lin", "g_pushed_meanwhile"]
+    UNCH = "IMP(OLD(g_acq) == 0, $0->buffer.n == OLD($0->buffer.n) && $0->buffer.b == OLD($0->buffer.b) && $0->buffer.cap == OLD($0->buffer.cap))"
+    GROW = "IMP(g_role == 0, $0->buffer.n == OLD($0->buffer.n) + (g_pushed_meanwhile - OLD(g_pushed_meanwhile)) && $0->buffer.n >= OLD($0->buffer.n) && IMP(verif_gi < OLD($0->buffer.n), $0->buffer.b[verif_gi] == g_s_gi))"
+    OWN2 = "($0->buffer.n <= $0->buffer.cap && $0->buffer.cap <= %d && (($0->buffer.cap == 0 && $0->buffer.b == 0) || ($0->buffer.cap > 0 && $0->buffer.b == OLD($0->buffer.b) && $0->buffer.cap == OLD($0->buffer.cap)) || ($0->buffer.cap > 0 && __CPROVER_is_fresh($0->buffer.b, $0->buffer.cap * sizeof(int)))))" % MAXN
+    ONE = "g_acq >= OLD(g_acq) + 1 && g_acq <= OLD(g_acq) + 1000"
+    ONE_LEAF = "g_acq >= OLD(g_acq) + 1 && g_acq <= OLD(g_acq) + 8"
     for nm in ("tb_push_back", "tb_push_back_move"):
-        U.fn(nm, pre_call=buf, requires=[FREE, OWN], assigns=["$0->buffer", "$0->bufferMutex.g_held"], frees=["$0->buffer.b"], single=["v"], ensures={
-            "push_back_appends_exactly_one_element": "$0->buffer.n == OLD($0->buffer.n) + 1", "mutex_released_on_return": FREE})
-    U.fn("tb_consume", pre_call=buf, requires=[FREE, OWN], assigns=["$0->buffer", "$0->bufferMutex.g_held"], ensures={
-        "consume_hands_over_the_whole_batch": "RET.n == OLD($0->buffer.n) && RET.b == OLD($0->buffer.b)",
-        "consume_leaves_the_buffer_empty": "$0->buffer.n == 0 && $0->buffer.b == 0", "mutex_released_on_return": FREE})
-    U.fn("tb_size", pre_call=buf, requires=[FREE, OWN], assigns=["$0->bufferMutex.g_held"], ensures={"size_reads_under_the_lock": "RET == $0->buffer.n", "mutex_released_on_return": FREE})
-    U.fn("tb_empty", pre_call=buf, requires=[FREE, OWN], assigns=["$0->bufferMutex.g_held"], ensures={"empty_reads_under_the_lock": "RET == ($0->buffer.n == 0)", "mutex_released_on_return": FREE})
+        U.fn(nm, pre_call=buf.replace("ROLE", "1"), requires=[FREE, OWN, "g_role == 1"] + GH, assigns=["$0->buffer", "$0->bufferMutex.g_held", "__CPROVER_object_whole($0->buffer.b)"] + GA, frees=["$0->buffer.b"], single=["v"], ensures={
+            "push_back_appends_exactly_one_element_to_what_its_critical_section_found": "$0->buffer.n == g_n_lin + 1",
+            "the_appended_element_is_the_pushed_value_at_the_end": "$0->buffer.b[$0->buffer.n - 1] == OLD($1[0])",
+            "earlier_elements_keep_their_place_and_value": "IMP(OLD(g_acq) == 0 && g_acq == 1 && verif_gi < OLD($0->buffer.n), $0->buffer.b[verif_gi] == g_s_gi)",
+            "the_operation_took_the_mutex": ONE, "mutex_released_on_return": FREE})
+    U.fn("tb_consume", pre_call=buf.replace("ROLE", "0"), requires=[FREE, OWN, "g_role == 0"] + GH, assigns=["$0->buffer", "$0->bufferMutex.g_held", "__CPROVER_object_whole($0->buffer.b)"] + GA, frees=["$0->buffer.b"], ensures={
+        "consume_takes_all_contents_present_at_its_critical_section": "RET.n == g_n_lin",
+        "consume_leaves_the_buffer_empty": "$0->buffer.n == 0",
+        "no_element_lost_or_duplicated_across_the_batch_boundary": "RET.n + $0->buffer.n == OLD($0->buffer.n) + (g_pushed_meanwhile - OLD(g_pushed_meanwhile))",
+        "batch_holds_the_elements_in_push_order": "IMP(verif_gi < OLD($0->buffer.n), verif_gi < RET.n && RET.b[verif_gi] == g_s_gi)",
+        "the_operation_took_the_mutex": ONE, "mutex_released_on_return": FREE})
+    U.fn("tb_size", pre_call=buf.replace("ROLE", "0"), requires=[FREE, OWN] + GH, assigns=["$0->bufferMutex.g_held", "$0->buffer"] + GA, ensures={"a_read_only_operation_leaves_the_buffer_as_it_found_it": UNCH, "buffer_stays_well_formed": OWN2, "only_appended_elements_may_appear_meanwhile": GROW, "size_reads_under_the_lock": "RET == g_n_lin", "the_operation_took_the_mutex": ONE_LEAF, "mutex_released_on_return": FREE})
+    U.fn("tb_empty", pre_call=buf.replace("ROLE", "0"), requires=[FREE, OWN] + GH, assigns=["$0->bufferMutex.g_held", "$0->buffer"] + GA, ensures={"a_read_only_operation_leaves_the_buffer_as_it_found_it": UNCH, "buffer_stays_well_formed": OWN2, "only_appended_elements_may_appear_meanwhile": GROW, "empty_reads_under_the_lock": "RET == (g_n_lin == 0)", "the_operation_took_the_mutex": ONE_LEAF, "mutex_released_on_return": FREE})
     TFREE = "$0->mutex.g_held == 0"
-    U.fn("tv_assign", requires=[TFREE], assigns=["$0->queuedValue", "$0->newValue", "$0->mutex.g_held"], single=["ot"], ensures={
+    tv = "\n  g_tv = &o_@0; g_obj = 0; g_acq = nondet_unsigned_long(); g_role = ROLE; __CPROVER_assume(g_acq < 4294967296ul);\n"
+    TG = ["g_tv == $0 && g_obj == 0 && g_acq < 4294967296ul"]
+    TA = ["g_acq", "g_new_lin", "g_q_lin"]
+    U.fn("tv_assign", pre_call=tv.replace("ROLE", "1"), requires=[TFREE, "g_role == 1"] + TG, assigns=["$0->queuedValue", "$0->newValue", "$0->mutex.g_held"] + TA, single=["ot"], ensures={
         "assignment_queues_the_value_and_raises_the_flag": "$0->queuedValue == $1[0] && $0->newValue != 0", "current_value_untouched": "$0->currentValue == OLD($0->currentValue)",
-        "mutex_released_on_return": TFREE, "returns_self": "RET == $0"})
-    U.fn("tv_update", requires=[TFREE], assigns=["$0->currentValue", "$0->newValue", "$0->mutex.g_held"], ensures={
-        "update_returns_true_exactly_when_it_installed_a_queued_value": "RET == (OLD($0->newValue) != 0)",
-        "update_installs_the_queued_value_and_clears_the_flag": "IMP(OLD($0->newValue) != 0, $0->currentValue == OLD($0->queuedValue) && $0->newValue == 0)",
-        "update_without_pending_value_changes_nothing": "IMP(OLD($0->newValue) == 0, $0->currentValue == OLD($0->currentValue) && $0->newValue == 0)",
-        "mutex_released_on_return": TFREE})
+        "the_operation_took_the_mutex": ONE, "mutex_released_on_return": TFREE, "returns_self": "RET == $0"})
+    U.fn("tv_update", pre_call=tv.replace("ROLE", "0"), requires=[TFREE, "g_role == 0"] + TG, assigns=["$0->currentValue", "$0->newValue", "$0->queuedValue", "$0->mutex.g_held"] + TA, ensures={
+        "update_returns_true_exactly_when_it_installed_a_queued_value": "RET == (g_new_lin != 0)",
+        "update_installs_the_queued_value_and_clears_the_flag": "IMP(g_new_lin != 0, $0->currentValue == g_q_lin && $0->newValue == 0)",
+        "update_without_pending_value_changes_nothing": "IMP(g_new_lin == 0, $0->currentValue == OLD($0->currentValue) && $0->newValue == 0)",
+        "update_leaves_the_queued_slot_alone_unless_it_consumed_it": "IMP(g_new_lin == 0, $0->queuedValue == g_q_lin)",
+        "the_operation_took_the_mutex": ONE, "mutex_released_on_return": TFREE})
     U.fn("tv_get", ensures={"get_returns_the_consumer_side_value": "RET == $0->currentValue"})
     U.fn("tv_ref", ensures={"ref_is_the_consumer_side_value": "RET == &$0->currentValue"})
     return [U]
 
 
 META = dict(
-    technique='CBMC 6.11 function contracts (dfcc): sequential specification + ghost lock discipline (every guarded field accessed only while its mutex is held)',
+    technique='CBMC 6.11 function contracts (dfcc): sequential specification over a value-tracking vector + ghost lock discipline (every guarded field accessed only while its mutex is held) + thread-modular interference at every re-acquisition of the mutex',
     level="proof",
-    level_text="Every member function of TransactionalBuffer<int> and TransactionalValue<int> is extracted with std::mutex/lock_guard as a ghost lock and every read or write of a field declared guarded_by (buffer; queuedValue, newValue) preceded by the obligation 'the guarding mutex is held' (lock discipline); lock_guard's destructor is placed after the return value has been evaluated. Under the lock the sequential specs are proved: push_back appends one element, consume hands over the whole batch and leaves the buffer empty, size/empty read under the lock, assignment queues + raises the flag, update returns true exactly when it installs the queued value and clears the flag; the mutex is free on return.",
-    level_note="From 'every access to the shared fields happens under the one mutex' + the sequential specs, the statement's no-loss/no-duplication/order/torn-state clauses and data-race freedom follow for all interleavings by the lock-linearisation argument, which is a trusted meta-theorem here, not a proof. currentValue is consumer-private by the documented usage. std::vector is an owner model without element values (push order of elements is not tracked).",
-    assumptions=["lock discipline => race freedom + linearisability (thread-modular argument, trusted)", "std::vector / std::mutex / std::lock_guard models"],
-    unverified=["element order/values inside the batch", "TransactionalValue copy-assignment from another TransactionalValue (does not compile when instantiated)", "progress / 'once the producer has stopped'"],
+    level_text="Every member function of TransactionalBuffer<int> and TransactionalValue<int> is extracted with std::mutex/lock_guard as a ghost lock; every read or write of a field declared guarded_by (buffer; queuedValue, newValue) is preceded by the obligation 'the guarding mutex is held' (lock discipline); lock_guard's destructor is placed after the return value has been evaluated. The effect of each operation is specified against the state found at its LAST acquisition of the mutex (ghost g_n_lin / g_new_lin / g_q_lin): the ghost lock calls a unit-supplied interference function on every acquisition, which from the second acquisition of one operation on applies what the other threads of the documented usage may have done in between (consumer: producers appended any number of elements, order of the old ones kept; producer: any well-formed buffer; TransactionalValue: the other side assigned / updated). Proved under that: push_back appends exactly the pushed value at the end and keeps the earlier elements; consume takes all contents present at its critical section, in push order, leaves the buffer empty and conserves the element count across the batch boundary (nothing pushed between two critical sections of one consume is lost or duplicated); size/empty read under the lock and leave the buffer alone; assignment queues + raises the flag; update returns true exactly when it installs the queued value and clears the flag; the mutex is free on return. Element values are tracked at a ghost index (std::vector value-tracking model).",
+    level_note="From 'every access to the shared fields happens under the one mutex' + 'each operation's effect is atomic with respect to the state at its linearising critical section, under arbitrary interference between critical sections' the statement's no-loss/no-duplication/order/torn-state clauses and data-race freedom follow for all interleavings by the lock-linearisation argument, which is a trusted meta-theorem here, not a mechanised proof. On the current code every operation is one critical section, so the interference function is never exercised; it exists so that a change splitting an operation into several critical sections is judged against the concurrent property instead of the sequential one. currentValue is consumer-private by the documented usage. A function that acquires a loop the contracts do not know is checked with a bounded unwinding (6) as a fallback: failures inside the bound are reported, anything else is inconclusive.",
+    assumptions=["lock discipline + per-operation atomicity under interference => race freedom + linearisability (thread-modular argument, trusted)", "rely conditions of the documented usage (verif_on_acquire)", "std::vector value-tracking model / std::mutex / std::lock_guard models"],
+    unverified=["TransactionalValue copy-assignment from another TransactionalValue (does not compile when instantiated)", "progress / 'once the producer has stopped'", "heap-owning payload types (int payload only)"],
 )
